@@ -17,6 +17,11 @@ fn main() {
     let seed = args.u64("--seed", 1);
     let out = args.str("--out", "");
     vkit::util::install_panic_hook();
+    // every log level is taken (and discarded), so that the arguments of the library's log macros are evaluated
+    // (not for the cost measurements of C15: they measure parsing, not the formatting of log records)
+    if !matches!(cmd.as_str(), "c15" | "cost" | "floodgen") {
+        vkit::util::install_logger();
+    }
     if cfg!(miri) {
         // the interpreter is ~4 orders of magnitude slower; the reference codec is anchored by the native runs
     } else if let Err(e) = ippref::self_check() {
